@@ -12,6 +12,7 @@ import NemoVerif.Lemmas.PipelineOpts
 import NemoVerif.Lemmas.RailsInterp
 import NemoVerif.Lemmas.RailsRefine
 import NemoVerif.Lemmas.RailsOpaque
+import NemoVerif.Lemmas.RailsRecheck
 import NemoVerif.Lemmas.GenLogCounts
 import NemoVerif.Lemmas.GenLogTurn
 
@@ -566,6 +567,88 @@ open NemoVerif.RailsInterp in
 example : driveTraceN 60 exSetupDollar (some (true, false, false, false)) "$100 is too much" none =
     some [.railCall "input" 0 "in0" "$100 is too much", .railCall "input" 1 "in1" "$100 is too much", .utter "$100 is too much!"] := by
   decide +kernel
+
+/-! ## Wave 6 — a refusal is never checked again (predefined messages, templates included)
+
+  `LLMGenerationActions.generate_bot_message` answers a bot intent that has a predefined message with that message, RENDERED
+  against the context (`{{ var }}` / `$var`), and raises the one-shot flag `$skip_output_rails`; `process bot message` tests and
+  resets the flag.  The flag is what keeps the refusal of a blocking rail from being sent through the output rails (and, for a
+  blocking OUTPUT rail, from re-entering the whole output category inside the blocked rail, which would also close the "current
+  rail" of `compute_generation_log` so that no rail carries `stop`).  The interpreter-level model executes the action's decision
+  (`RailsInterp.predefUpdates`, shape regenerated from the source: `Generated.C16Predef.flagOnlyIfUnchanged`); the configured message
+  `s.refusalTpl` and what it says in the run `s.refusal` are independent, arbitrary strings of the set-up. -/
+
+open NemoVerif.RailsInterp in
+/-- **predefined message ⇒ flag set, whatever rendering does**: for every rendering function, every configured message and every
+    context, the predefined branch of `generate_bot_message` (shape of the current source) returns the flag among its context
+    updates and the rendered text as the `BotMessage`. -/
+theorem predefined_message_always_sets_flag (render : String → V1Interp.Ctx → String) (tpl : String) (σ : V1Interp.Ctx) :
+    predefBranch Generated.C16Predef.flagOnlyIfUnchanged render tpl σ
+      = ([("skip_output_rails", .bool true)], .other "BotMessage" [("text", .str (render tpl σ))]) := rfl
+
+open NemoVerif.RailsInterp in
+/-- kernel-checked witness that the shape matters: with "only if rendering left the message unchanged" a template whose variable
+    has a value does NOT raise the flag (the static library message still does) — the `BotMessage` then meets `process bot message`
+    with the flag unset, which runs the output rails on it (`pbm_runs`: `pbmSpec`). -/
+theorem flag_only_if_unchanged_witness :
+    predefUpdates true "I can't respond to that ({{ block_reason }})." "I can't respond to that (input policy)." = [] ∧
+    predefUpdates true "Blocked: $block_reason" "Blocked: output policy" = [] ∧
+    predefUpdates true "I will not answer that." "I will not answer that." = [("skip_output_rails", .bool true)] ∧
+    predefUpdates false "Blocked: $block_reason" "Blocked: output policy" = [("skip_output_rails", .bool true)] := by
+  decide +kernel
+
+open NemoVerif.RailsInterp in
+/-- **`refusal_never_rechecked`** — ∀ well-formed set-ups (rail lists of any length, arbitrary verdict functions, ANY configured
+    refusal message `s.refusalTpl` and ANY text `s.refusal` that rendering makes of it), ∀ 17 option values, ∀ user texts and bot
+    messages (documented usage): in the trace of the interpreter loop on the generated llm_flows.co, behind the call of a rail that
+    rejects the text it is shown there is the utterance of the refusal and NOTHING else — no output rail is called on the refusal, no
+    rail is called a second time, no LLM call is made. -/
+theorem refusal_never_rechecked (s : Setup) (hwf : s.WF) (o : Option (Bool × Bool × Bool × Bool)) (user : String) (bot : Option String)
+    (hb : BotOK o bot) :
+    ∃ N, ∀ fuel, N ≤ fuel → ∃ tr, driveTraceN fuel s o user bot = some tr ∧
+      ∀ pre c k n t post, tr = pre ++ Obs.railCall c k n t :: post → s.rejects c k t = true → post = [Obs.utter s.refusal] := by
+  obtain ⟨N, h⟩ := interp_trace_is_spec s hwf o user bot hb
+  refine ⟨N, fun f hf => ⟨_, h f hf, ?_⟩⟩
+  intro pre c k n t post he hr
+  exact tailOK_split s pre c k n t post (he ▸ specTrace_tailOK s o user bot) hr
+
+open NemoVerif.RailsInterp in
+/-- … in particular no output rail ever sees the refusal -/
+theorem no_output_rail_on_the_refusal (s : Setup) (hwf : s.WF) (o : Option (Bool × Bool × Bool × Bool)) (user : String) (bot : Option String)
+    (hb : BotOK o bot) :
+    ∃ N, ∀ fuel, N ≤ fuel → ∃ tr, driveTraceN fuel s o user bot = some tr ∧
+      ∀ pre c k n t post, tr = pre ++ Obs.railCall c k n t :: post → s.rejects c k t = true →
+        ∀ k' n' t', Obs.railCall "output" k' n' t' ∉ post := by
+  obtain ⟨N, h⟩ := refusal_never_rechecked s hwf o user bot hb
+  refine ⟨N, fun f hf => ?_⟩
+  obtain ⟨tr, htr, hp⟩ := h f hf
+  refine ⟨tr, htr, fun pre c k n t post he hr k' n' t' hm => ?_⟩
+  rw [hp pre c k n t post he hr] at hm
+  simp at hm
+
+open NemoVerif.RailsInterp in
+/-- non-vacuity: the concrete set-up with a TEMPLATED refusal (configured `… ({{ block_reason }}).`, saying `… (input policy).` in
+    this run) … -/
+def exSetupTpl : Setup :=
+  { exSetup with refusal := "I can't respond to that (input policy).", refusalTpl := "I can't respond to that ({{ block_reason }})." }
+
+open NemoVerif.RailsInterp in
+/-- … is well-formed … -/
+theorem exSetupTpl_wf : exSetupTpl.WF :=
+  ⟨by decide, by decide, by decide, by decide⟩
+open NemoVerif.RailsInterp in
+/-- … its rails reject `bad` (input) and `evil` (output) … -/
+example : exSetupTpl.rejects "input" 0 "bad" = true ∧ exSetupTpl.rejects "output" 0 "evil" = true ∧ exSetupTpl.rejects "output" 0 exSetupTpl.refusal = false := by
+  decide +kernel
+
+open NemoVerif.RailsInterp in
+/-- … and the interpreter loop on it, evaluated in the kernel (finite): input + output selected, the input rail blocks ⇒ the rendered
+    refusal is uttered and the output rail is NOT called on it; an output rail blocks ⇒ the output category is not entered again -/
+example : driveTraceN 60 exSetupTpl (some (true, false, false, true)) "bad" (some "fine") =
+    some [.railCall "input" 0 "in0" "bad", .utter "I can't respond to that (input policy)."] := by decide +kernel
+open NemoVerif.RailsInterp in
+example : driveTraceN 60 exSetupTpl (some (false, false, false, true)) "hi" (some "evil") =
+    some [.railCall "output" 0 "out0" "evil", .utter "I can't respond to that (input policy)."] := by decide +kernel
 
 /-! ## The generation log: LLM-call count and executed actions
 
